@@ -146,7 +146,7 @@ def soak_part(ctx, v, rng, schema, out):
     if binary is None:
         v.corr_broken.append(({"text": "race build", "dataset": None}, "the race-detector build of the harness failed: %s" % (err or "")[-500:]))
         return
-    runs = [(3000, 6)] if ctx["tier"] == "quick" else [(15000, 6), (15000, 10), (15000, 4)]
+    runs = [(4500, 6)] if ctx["tier"] == "quick" else [(15000, 6), (15000, 10), (15000, 4)]
     racedir = os.path.join(common.BUILD, "race-%d" % os.getpid())
     totals = {"queries": 0, "rows": 0, "mutations": 0, "versions": 0}
     for ri, (ms, clients) in enumerate(runs):
